@@ -38,6 +38,8 @@ Definition match_ints (n : nat) (v : str) : option (list str) :=
   let parts := split_on 44 (chop_nl v) in
   if Nat.eqb (length parts) n && forallb int_tok parts then Some parts else None.
 
+Definition is_some {A} (o : option A) : bool := match o with Some _ => true | None => false end.
+
 (* range(a, b, c): ValueError when c = 0 *)
 Definition make_range (a b c : Z) : option prange :=
   if c =? 0 then None else Some {| rg_start := a; rg_stop := b; rg_step := c |}.
@@ -134,6 +136,10 @@ Definition match_days (s : str) : option (str * str) :=
     if starts_with s_comma_sp r3 then Some (d, skipn 2 r3) else None
   else None.
 
+(* re.match of the days pattern succeeds: the days part, then h:m:s at once *)
+Definition days_scan (s : str) : bool :=
+  match match_days s with Some (_, rest) => is_some (match_hms rest) | None => false end.
+
 Inductive td_res := TdOk (total : Z) | TdRej | TdOverflow.
 
 Definition fin_of (f : option fl) : option Z := match f with Some (FFin m) => Some m | _ => None end.
@@ -175,11 +181,67 @@ Definition timedelta_deserializer (v : pyval) : td_res :=
 (* register_type(SecretStr): serializer = str, and SecretStr.__str__ returns the mask *)
 Definition secret_serializer (secret : str) : str := s_stars.
 
+(* ------------------------------------------------------------------------------ registry *)
+(* registered_type_handlers after import: the table of Gen/C20Registry.v, later entries win *)
+Definition reg_lookup (tbl : list (str * (serfn * desfn))) (ty : str) : option (serfn * desfn) :=
+  fold_left (fun acc e => if str_eqb (fst e) ty then Some (snd e) else acc) tbl None.
+
+Definition ty_Decimal : str := [100;101;99;105;109;97;108;46;68;101;99;105;109;97;108]%N.  (* decimal.Decimal *)
+Definition ty_timedelta : str := [100;97;116;101;116;105;109;101;46;116;105;109;101;100;101;108;116;97]%N.  (* datetime.timedelta *)
+Definition ty_range : str := [114;97;110;103;101]%N.  (* range *)
+Definition ty_SecretStr : str := [83;101;99;114;101;116;83;116;114]%N.  (* SecretStr *)
+Definition ty_bytes : str := [98;117;105;108;116;105;110;115;46;98;121;116;101;115]%N.  (* builtins.bytes *)
+Definition ty_bytearray : str := [98;117;105;108;116;105;110;115;46;98;121;116;101;97;114;114;97;121]%N.  (* builtins.bytearray *)
+Definition ty_complex : str := [99;111;109;112;108;101;120]%N.  (* complex *)
+Definition ty_UUID : str := [117;117;105;100;46;85;85;73;68]%N.  (* uuid.UUID *)
+Definition ty_Path : str := [112;97;116;104;108;105;98;46;80;97;116;104]%N.  (* pathlib.Path *)
+Definition ty_PosixPath : str := [112;97;116;104;108;105;98;46;80;111;115;105;120;80;97;116;104]%N.  (* pathlib.PosixPath *)
+
+(* the registrations the models of this file stand for; the Decimal one is left out: it has two
+   modelled variants (below) *)
+Definition registry_expected : list (str * (serfn * desfn)) :=
+  [(ty_range, (SerRange, DesRange)); (ty_timedelta, (SerStr, DesTimedelta)); (ty_SecretStr, (SerStr, DesClass));
+   (ty_bytes, (SerBytes, DesBytes)); (ty_bytearray, (SerBytes, DesBytearray)); (ty_complex, (SerStr, DesClass));
+   (ty_UUID, (SerStr, DesClass)); (ty_Path, (SerStr, DesClass)); (ty_PosixPath, (SerStr, DesClass))].
+
+Definition serfn_eqb (a b : serfn) : bool :=
+  match a, b with
+  | SerStr, SerStr | SerFloat, SerFloat | SerDecimal, SerDecimal | SerBytes, SerBytes | SerRange, SerRange => true
+  | SerOther x, SerOther y => str_eqb x y
+  | _, _ => false
+  end.
+Definition desfn_eqb (a b : desfn) : bool :=
+  match a, b with
+  | DesClass, DesClass | DesStr, DesStr | DesDecimal, DesDecimal | DesTimedelta, DesTimedelta | DesBytes, DesBytes
+  | DesBytearray, DesBytearray | DesRange, DesRange => true
+  | DesOther x, DesOther y => str_eqb x y
+  | _, _ => false
+  end.
+
+Definition registry_ok (tbl : list (str * (serfn * desfn))) : bool :=
+  forallb (fun e => match reg_lookup tbl (fst e) with
+                    | Some (s, d) => serfn_eqb s (fst (snd e)) && desfn_eqb d (snd (snd e))
+                    | None => false end) registry_expected.
+
 (* ------------------------------------------------------------------------------ Decimal *)
-(* A finite Decimal is mant * 10^exp. It is serialised with float(): the nearest binary double,
-   an external function; a double is num * 2^ex. The deserializer Decimal(float) is exact. *)
+(* A finite Decimal is mant * 10^exp. Two registrations are modelled:
+   RegFloat  — register_type_on_first_use("decimal.Decimal", float): serialised with float(), read
+               back with Decimal(value) (exact for a float: the binary expansion of the double);
+   RegHybrid — fixes/C20-decimal-via-float.patch: decimal_serializer gives float(d) when
+               Decimal(repr(float(d))) == d and str(d) otherwise; decimal_deserializer reads a float
+               through its repr and anything else with Decimal(value).
+   float() and repr() are external: `to_double d` is float(d) exactly (num * 2^ex) and `to_text d` is
+   Decimal(repr(float(d))); None = the float is infinite. *)
 Record decimal := { d_mant : Z; d_exp : Z }.
 Record dyadic := { y_num : Z; y_exp : Z }.
+Inductive dec_reg := RegFloat | RegHybrid.
+
+Definition decimal_registration (tbl : list (str * (serfn * desfn))) : option dec_reg :=
+  match reg_lookup tbl ty_Decimal with
+  | Some (SerFloat, DesClass) => Some RegFloat
+  | Some (SerDecimal, DesDecimal) => Some RegHybrid
+  | _ => None
+  end.
 
 (* d = y as rationals, by cross-multiplication with non-negative powers only *)
 Definition pos_part (z : Z) : Z := Z.max z 0.
@@ -191,6 +253,61 @@ Definition dec_eqb (a b : decimal) : bool :=
   d_mant a * 10 ^ pos_part (d_exp a) * 10 ^ pos_part (- d_exp b)
   =? d_mant b * 10 ^ pos_part (d_exp b) * 10 ^ pos_part (- d_exp a).
 
-(* config-file channel: dump writes float(d); the loader reads that double; Decimal(double) *)
-Definition decimal_roundtrip_file_equal (to_double : decimal -> dyadic) (d : decimal) : bool :=
-  dec_dy_eqb d (to_double d).
+(* the config representation: a float (its exact value and what its repr denotes) or a str *)
+Inductive dec_cfg := CfgFloat (y : option dyadic) (t : option decimal) | CfgStr (d : decimal).
+
+Section Decimal.
+  Variable to_double : decimal -> option dyadic.
+  Variable to_text : decimal -> option decimal.
+
+  Definition text_denotes (d : decimal) : bool :=
+    match to_text d with Some t => dec_eqb d t | None => false end.
+
+  Definition decimal_serialize (reg : dec_reg) (d : decimal) : dec_cfg :=
+    match reg with
+    | RegFloat => CfgFloat (to_double d) (to_text d)
+    | RegHybrid => if text_denotes d then CfgFloat (to_double d) (to_text d) else CfgStr d
+    end.
+
+  (* config-file / parse_string / json channel: the loader hands the deserializer the float (the very
+     double that was dumped) or the str. Is what comes back equal to d? *)
+  Definition decimal_file_equal (reg : dec_reg) (d : decimal) : bool :=
+    match decimal_serialize reg d with
+    | CfgFloat y t =>
+        match reg with
+        | RegFloat => match y with Some y' => dec_dy_eqb d y' | None => false end    (* Decimal(float): exact *)
+        | RegHybrid => match t with Some t' => dec_eqb d t' | None => false end      (* Decimal(repr(float)) *)
+        end
+    | CfgStr d' => dec_eqb d d'                                                      (* Decimal(str(d)) *)
+    end.
+
+  (* command line: the text of the representation reaches the deserializer as a str *)
+  Definition decimal_argv_equal (reg : dec_reg) (d : decimal) : bool :=
+    match decimal_serialize reg d with
+    | CfgFloat _ t => match t with Some t' => dec_eqb d t' | None => false end       (* Decimal(repr(float)) *)
+    | CfgStr d' => dec_eqb d d'
+    end.
+End Decimal.
+
+(* The pre-fix guard: d is exactly a binary double with a 53-bit significand and has at most 15
+   significant digits (then repr(float(d)) denotes d as well). Outside: finding class 1 (only under
+   RegFloat; under RegHybrid every finite decimal is inside the guard). *)
+Fixpoint tz_pos (p : positive) : Z := match p with xO p' => 1 + tz_pos p' | _ => 0 end.
+Definition odd_part (n : Z) : Z := match n with Zpos p | Zneg p => Zpos p / 2 ^ tz_pos p | Z0 => 0 end.
+Definition is53 (n : Z) : bool := odd_part n <? 2 ^ 53.
+Definition dec_guard (d : decimal) : bool :=
+  (Z.abs (d_mant d) <? 10 ^ 15) && (Z.abs (d_exp d) <? 300) &&
+  if 0 <=? d_exp d then is53 (d_mant d * 10 ^ d_exp d)
+  else (d_mant d mod 5 ^ (- d_exp d) =? 0) && is53 (d_mant d / 5 ^ (- d_exp d)).
+
+Definition dec_class (reg : option dec_reg) (d : decimal) : N :=
+  match reg with
+  | Some RegHybrid => 0
+  | Some RegFloat => if dec_guard d then 0 else 1
+  | None => 0            (* unknown registration: nothing is excused *)
+  end.
+
+(* what the theorem about RegFloat assumes of the external float()/repr(): on the guard they are exact *)
+Definition float_faithful (to_double : decimal -> option dyadic) (to_text : decimal -> option decimal) : Prop :=
+  forall d, dec_guard d = true ->
+    (exists y, to_double d = Some y /\ dec_dy_eqb d y = true) /\ (exists t, to_text d = Some t /\ dec_eqb d t = true).
